@@ -241,10 +241,18 @@ class Renderer:
             return '(%s if %s else %s)' % (x[1], x[0], x[2]) if py else '(%s ? %s : %s)' % (x[0], x[1], x[2])
         raise ValueError(e)
 
+    def top(self, e):
+        """an expression in a top-level position (select item, WHERE, key, right-hand side): sometimes without its outermost parentheses"""
+        s = self.expr(e)
+        if (self.rng is not None and self.rng.random() < 0.5 and e[0] in ('add', 'eq', 'ne', 'lt', 'le', 'and', 'or', 'not', 'cond')
+                and s.startswith('(') and s.endswith(')')):
+            return s[1:-1]
+        return s
+
     def item(self, it):
         t = it[0]
         if t == 'expr':
-            return self.expr(it[1])
+            return self.top(it[1])
         if t == 'star':
             return '*'
         if t == 'stara':
@@ -286,7 +294,7 @@ class Renderer:
                 parts.append(kw('except') + ' ' + ', '.join(self.fld('a', i) for i in k[1]))
         else:
             head = kw('update') + (' ' + kw('set') if q.get('update_set') else '')
-            head += ' ' + ', '.join('%s = %s' % (self.fld('a', i), self.expr(e)) for i, e in k[1])
+            head += ' ' + ', '.join('%s = %s' % (self.fld('a', i), self.top(e)) for i, e in k[1])
             parts.append(head)
         rest = []
         j = q.get('join')
@@ -300,11 +308,11 @@ class Renderer:
                 pairs.append('%s %s %s' % (a, eqs, b))
             rest.append(kw(j['spelling']) + ' ' + q.get('join_table', 'b') + ' ' + kw('on') + ' ' + (' ' + kw('and') + ' ').join(pairs))
         if q.get('where') is not None:
-            rest.append(kw('where') + ' ' + self.expr(q['where']))
+            rest.append(kw('where') + ' ' + self.top(q['where']))
         if q.get('group') is not None:
-            rest.append(kw('group by') + ' ' + ', '.join(self.expr(e) for e in q['group']))
+            rest.append(kw('group by') + ' ' + ', '.join(self.top(e) for e in q['group']))
         if q.get('order') is not None:
-            s = kw('order by') + ' ' + ', '.join(self.expr(e) for e in q['order'][0])
+            s = kw('order by') + ' ' + ', '.join(self.top(e) for e in q['order'][0])
             if q['order'][1]:
                 s += ' ' + kw('desc')
             elif q.get('asc_explicit'):
